@@ -245,4 +245,157 @@ def run(chk):
     # copyable or not (shared obligations with C22)
     from .C22 import upv_obligations
     upv_obligations(chk, tag="calls-to-guppy-functions:")
+    struct_attribute_obligations(chk, e, m)
     chk.use_engine(e)
+
+
+REPLAY_STRUCT_METHOD = r'''
+import guppy_plainbool
+import tempfile, importlib.util, os, sys, shutil
+src = """from guppylang import guppy
+from guppylang.std.builtins import array, result, comptime
+@guppy.struct
+class Acc:
+    vals: array[int, 2]
+    @guppy
+    def bump(self: "Acc", k: int) -> int:
+        self.vals[1] = self.vals[1] + k
+        return self.vals[1]
+@guppy
+def reg(a: int) -> tuple[int, int, int]:
+    s = Acc(array(a, 2))
+    r = s.bump(10)
+    t = s.bump(100)
+    return r, t, s.vals[1]
+@guppy.comptime
+def cmp(a: int) -> tuple[int, int, int]:
+    s = Acc([a + 0, 2])
+    r = s.bump(10)
+    t = s.bump(100)
+    return r, t, s.vals[1]
+@guppy
+def main() -> None:
+    r, t, v = reg(1)
+    result("r", r); result("t", t); result("v", v)
+    result("sep", 0)
+    r, t, v = cmp(1)
+    result("r", r); result("t", t); result("v", v)
+"""
+d = tempfile.mkdtemp(dir=os.environ.get("TMPDIR", "/var/tmp")); fn = os.path.join(d, "replay_c21s.py"); open(fn, "w").write(src)
+spec = importlib.util.spec_from_file_location("replay_c21s", fn); m = importlib.util.module_from_spec(spec); sys.modules["replay_c21s"] = m
+try:
+    spec.loader.exec_module(m)
+    got = [list(x) for x in list(m.main.emulator(n_qubits=1).run().results)[0].entries]
+    k = got.index(["sep", 0])
+    out = {"violates": got[:k] != got[k + 1:], "regular": got[:k], "comptime": got[k + 1:]}
+except Exception as ex:
+    out = {"violates": False, "error": repr(ex)[:300]}
+shutil.rmtree(d, ignore_errors=True)
+print(json.dumps(out))
+'''
+
+
+def struct_attribute_obligations(chk, e, m):
+    """GuppyStructObject.__getattr__ / __setattr__ (tracing/object.py): a comptime struct is a Python-side
+    record of its fields.  Regular mode resolves `s.f` to the field place and `s.m(xs)` to the instance
+    function m of the struct type called with the place `s` itself (so a borrowed `self` is written
+    back into s).  Comptime must do the same with the record:
+      * `s.f`  is the stored field value, the very object, no lookup of functions;
+      * `s.m`  for an instance function F of the type is a callable that, applied to xs, calls the
+               traced definition of F with (s, *xs) where the first argument IS s (not a packed copy:
+               trace_call writes the callee's updates back into the argument objects it was given);
+      * an unknown name raises AttributeError;
+      * `s.f = v` stores v under f and leaves every other field alone; on a frozen record it raises
+               GuppyComptimeError and changes nothing; an unknown name raises AttributeError."""
+    e.func_info(MOD, "GuppyStructObject.__getattr__")
+    e.func_info(MOD, "GuppyStructObject.__setattr__")
+    FIELDS = ("a", "b", "c")
+
+    def setup(it, frozen, funcs):
+        log = []
+        GSO = it.lookup_global(m, "GuppyStructObject")
+        glob = SObj(ClassVal("Globals", builtin=True), {})
+
+        def gif(it2, a, k):
+            log.append(("get_instance_func", a[1], a[2]))
+            return funcs.get(a[2])
+        e.models["guppylang_internals.checker.core:Globals.get_instance_func"] = gif
+        glob.fields["get_instance_func"] = Builtin("gif", lambda ty, name: gif(it, [glob, ty, name], {}))
+        st = SObj(ClassVal("State"), {"globals": glob})
+        e.models["guppylang_internals.tracing.state:get_tracing_state"] = lambda it2, a, k: st
+
+        def tdm(it2, a, k):
+            d = a[0]
+            return Builtin("traced", lambda *xs: (log.append(("call", d, list(xs))) or ("RET", d)))
+        e.models[f"{MOD}:TracingDefMixin"] = tdm
+
+        def get_method(it2, a, k):
+            log.append(("_get_method", a[1]))
+            return Builtin("packed-method", lambda *xs: (log.append(("call-on-packed-copy", a[1], list(xs))) or ("RET", "packed")))
+        e.models[f"{MOD}:DunderMixin._get_method"] = get_method
+        vals = {f: SObj(ClassVal("Val"), {"n": f}) for f in FIELDS}
+        ty = SObj(ClassVal("StructType"), {"name": "S"})
+        s = SObj(GSO, {"_ty": ty, "_field_values": dict(vals), "_frozen": frozen})
+        return s, vals, log, ty
+
+    def cleanup():
+        for k in ("guppylang_internals.checker.core:Globals.get_instance_func", "guppylang_internals.tracing.state:get_tracing_state", f"{MOD}:TracingDefMixin", f"{MOD}:DunderMixin._get_method"):
+            e.models.pop(k, None)
+    n = 0
+    for frozen in (False, True):
+        for key in FIELDS + ("meth", "nothing"):
+            for nx in (0, 1, 2):
+                if key != "meth" and nx:
+                    continue
+
+                def t(it, frozen=frozen, key=key, nx=nx):
+                    F = SObj(ClassVal("Def"), {"name": "meth"})
+                    s, vals, log, ty = setup(it, frozen, {"meth": F})
+                    r = it.getattr(s, key)
+                    xs = [SObj(ClassVal("Arg"), {"i": i}) for i in range(nx)]
+                    if key == "meth":
+                        r = it.call(r, xs, {})
+                    return r, s, vals, log, F, xs, ty
+                paths = e.explore(t)
+
+                def post(p, key=key):
+                    if key == "nothing":
+                        return z3.BoolVal(p.kind == "raise" and p.raised(e, "AttributeError"))
+                    if p.kind != "return":
+                        return z3.BoolVal(False)
+                    r, s, vals, log, F, xs, ty = p.value
+                    same = all(s.fields["_field_values"].get(f) is vals[f] for f in FIELDS) and len(s.fields["_field_values"]) == len(FIELDS)
+                    if key in FIELDS:
+                        return z3.BoolVal(r is vals[key] and log == [] and same)
+                    calls = [x for x in log if x[0] != "get_instance_func"]
+                    ok = len(calls) == 1 and calls[0][0] == "call" and calls[0][1] is F and len(calls[0][2]) == 1 + len(xs) and calls[0][2][0] is s \
+                        and all(a is b for a, b in zip(calls[0][2][1:], xs)) and r == ("RET", F) and same
+                    ok = ok and all(x[1] is ty and x[2] == "meth" for x in log if x[0] == "get_instance_func")
+                    return z3.BoolVal(ok)
+                what = {"nothing": "unknown-name-raises-AttributeError", "meth": f"method-called-with-the-struct-object-itself-first-and-the-{nx}-arguments-in-order"}.get(key, "field-is-the-stored-object(no-function-lookup)")
+                chk.prove_paths(f"GuppyStructObject.__getattr__[{'frozen' if frozen else 'mutable'},{key},{nx}]:{what}", paths, post, func=f"{MOD}:GuppyStructObject.__getattr__",
+                                replay=lambda m_: {"script": REPLAY_STRUCT_METHOD, "input": {}})
+                n += 1
+        for key in FIELDS + ("nothing",):
+            def t(it, frozen=frozen, key=key):
+                s, vals, log, ty = setup(it, frozen, {})
+                v = SObj(ClassVal("Val"), {"n": "new"})
+                it.setattr(s, key, v)
+                return s, vals, v
+            paths = e.explore(t)
+
+            def post(p, frozen=frozen, key=key):
+                if key == "nothing":
+                    return z3.BoolVal(p.kind == "raise" and p.raised(e, "AttributeError"))
+                if frozen:
+                    return z3.BoolVal(p.kind == "raise" and p.raised(e, "GuppyComptimeError"))
+                if p.kind != "return":
+                    return z3.BoolVal(False)
+                s, vals, v = p.value
+                fv = s.fields["_field_values"]
+                return z3.BoolVal(fv.get(key) is v and all(fv.get(f) is vals[f] for f in FIELDS if f != key) and len(fv) == len(FIELDS))
+            chk.prove_paths(f"GuppyStructObject.__setattr__[{'frozen' if frozen else 'mutable'},{key}]:" + ("raises" if frozen or key == "nothing" else "stores-the-value-under-that-field-only"), paths, post,
+                            func=f"{MOD}:GuppyStructObject.__setattr__")
+            n += 1
+    cleanup()
+    chk.record("GuppyStructObject:attribute-cases-explored", n >= 20, str(n), kind="reachability")
